@@ -84,7 +84,7 @@ def field_index(lay, name):
     return None
 
 
-def ref_offset(lay, ref, env):
+def ref_offset(lay, ref, env, I=None, st=None):
     """byte offset denoted by a reference into the IDT object"""
     if not isinstance(ref, Ref) or ref.loc != ('arg', 'self') or not ref.path:
         return None
@@ -93,7 +93,7 @@ def ref_offset(lay, ref, env):
     if len(ref.path) == 1:
         return off if f['size'] == 16 else None
     if len(ref.path) == 2 and isinstance(ref.path[1], tuple) and ref.path[1][0] == 'idx':
-        i = eval_bv(ref.path[1][1], env)
+        i = eval_bv(ref.path[1][1], env, I, st)
         if i is None or 16 * i >= f['size']:
             return None
         return off + 16 * i
@@ -116,7 +116,7 @@ def index_u8(chk, lay, fn_):
         for o in outs:
             if admits(I, o.st, assign, env):
                 if o.kind == 'ret':
-                    got.add(('ret', ref_offset(lay, o.val, env)))
+                    got.add(('ret', ref_offset(lay, o.val, env, I, o.st)))
                 else:
                     got.add((o.kind,))
         want = ('panic',) if v in SI.INDEX_REFUSED else ('ret', 16 * v)
@@ -202,7 +202,7 @@ def slices(chk, lay):
                         okend = e.is_const() and e.value() == 256 - first
                     else:
                         want = (1 if ek == 'inc' else 0) - first
-                        af = e.get_aff()
+                        af = I.aff_of(o.st, e)
                         okend = af is not None and af.norm(64).key() == __import__('x86abs.bits', fromlist=['Aff']).Aff({('b', 0, 8): 1}, want).norm(64).key()
                     if not okend:
                         bad = ('start %s: slice ends at element %r, expected end bound%s - 32' % (a, e, ' + 1' if ek == 'inc' else ''), outs)
